@@ -32,10 +32,14 @@ PROPS = {
              "equal the reference row. Compositions: block_matrix<2x2> over tuple<vector>, tuple<iterator_range<int*>>, zero_copy crs, make_matrix(row builder) and scaled_matrix(tuple) -- entries "
              "exactly the block form of the reference, interleaved block-row iterators, SpMV of the crs<2x2> copy; block_matrix(make_matrix(builder)) + amg<2x2> + BiCGStab set up and solved through the "
              "composed adapter with the true residual of the scalar system; reorder<>(block_matrix(tuple)) (examples/solver.cpp) entry check -- currently excluded as known finding F-block-iterator-copy. "
+             "make_solver(shared_ptr) with amg and with as_preconditioner<spai0>: system_matrix_ptr() is the very object passed in and its ptr/col/val alias the user's arrays; after an in-place update of the "
+             "user's values (diagonal x1.25) the two-argument solve is judged by the true residual of the UPDATED matrix. reorder_long: chains n=257..1200, strips 2-3 x 257..400 and 250..400 small components "
+             "(natural / reversed / rotated numbering; non-trivial = >=256 breadth-first levels incl. restarts) through the same reorder oracles. "
              "reorder<CM / reverse CM>: permutation validity, B(i,j)=A(perm i,perm j) bitwise, forward/inverse/view, solution mapped back solves the original system (true residual, long double). "
              "scale_diagonal: entries s_i a_ij s_j within 8u, unit diagonal, both documented rhs options, post-scaled solution solves the original system in the scaled norm and (times cond(S)) in the 2-norm. "
              "Row order: preconditioner built from tape-shuffled rows vs built from sorted rows, apply() bitwise equal on 3 vectors at 1 thread, for amg over all 4 coarsenings x 9 relaxations (runtime interface, "
-             "coarse_enough 2/8/3000), as_preconditioner over 9 relaxations, amg::rebuild(shuffled A') vs rebuild(sorted A') on two allow_rebuild hierarchies (same 4x9 space, gauss_seidel and the ILU family weighted up), make_solver (amg+cg, amg+bicgstab, relaxation+bicgstab; whole solve bitwise incl. iteration count), cpr, cpr_drs, "
+             "coarse_enough 2/8/3000), as_preconditioner over 9 relaxations, amg::rebuild(shuffled A') vs rebuild(sorted A') on two allow_rebuild hierarchies (same 4x9 space, gauss_seidel and the ILU family weighted up), make_solver (amg+cg, amg+bicgstab, relaxation+bicgstab; whole solve bitwise incl. iteration count), cpr / cpr_drs::partial_update(A' shuffled, update_transfer_ops true/false; A'=A or new values) on the object built from "
+             "shuffled rows vs the sorted twin, cpr, cpr_drs, "
              "schur_pressure_correction (inner solvers = one preconditioner application) on cell-structured systems b=2..4. "
              "non-trivial: at least one row with >=3 entries stored out of ascending column order (adapters: plus nnz>n; reorder/scale: n>=3 resp. badly scaled). "
              "distinct = distinct decoded choice sequences (64-bit hash), united over shards.",
